@@ -6,7 +6,7 @@
   raises (`some (exn e)`), at any yield and differently at different yields. The result says the
   bindings handed back are those the generator started from.
 -/
-import Yld.Proofs.Restore
+import Yld.Proofs.Restore2
 namespace Yld.C03
 
 /-- A unification generator leaves every variable in the binding state it had before it was
@@ -34,6 +34,27 @@ theorem chain_leaves_no_trace (g1 g2 : Gen) (h1 : Restoring g1) (h2 : Restoring 
 theorem nested_loops_leave_no_trace (g1 g2 : Gen) (h1 : Restoring g1) (h2 : Restoring g2) :
     Restoring (Gen.andThen g1 g2) :=
   andThen_restoring g1 g2 h1 h2
+
+/-- **Theorem R.** A query on any program — compiled code with cuts (`return`), if-then-else
+    (`break` through nested loops), negation, meta-calls, dynamic facts, registered Python
+    predicates that may raise — under any definition table and at any fuel, run with any
+    disciplined consumer (one that resumes, closes after any answer, or raises at any answer):
+    when the generator has ended, every binding cell is as it was before it was started. -/
+theorem query_leaves_no_trace (cfg : Cfg) (f : Nat) (name : String) (args : List Term) (k : K) (hk : Disciplined k) (w : World) :
+    (query cfg f name args k w).1.b = w.b :=
+  query_restoring cfg f name args k hk w
+
+/-- The same through the API, for the four ways a caller can end an enumeration. Consequently the
+    bindings before a second run of a query are those before the first. -/
+theorem api_query_leaves_no_trace (e : Engine) (m : Mode) (fuel : Nat) (name : String) (args : List Term) (sched : Sched) :
+    (e.query m fuel name args sched).1.w.b = e.w.b :=
+  engine_query_restores e m fuel name args sched
+
+/-- The generated code of one clause (head unifications, fresh variables, loops left by `return`
+    and `break`) restores, for every consumer. -/
+theorem compiled_clause_leaves_no_trace (fuel : Nat) (q : Q) (hq : QRestoring q) (cc : ClauseCode) (args : List Term) :
+    Restoring (runClauseCompiled fuel q cc args) :=
+  runClauseCompiled_restoring fuel q hq cc args
 
 /-- The bindings visible at an answer are the generator's own on top of the starting ones: a
     consumer that closes at the first answer still gets the starting bindings back. Concrete
